@@ -67,6 +67,14 @@ def get_utility_and_feasibility_function(
     arg_names = {"vf_arr"} | get_union_of_arguments(relevant_functions) - {"_period"}
     arg_names = [arg for arg in arg_names if "next_" not in arg]  # type: ignore[assignment]
 
+    # All variables of the state-choice space are passed to the function, also those
+    # that enter only filters (the state-choice space of the last period does not
+    # contain auxiliary variables)
+    variable_info = model.variable_info
+    if is_last_period:
+        variable_info = variable_info.query("~is_auxiliary")
+    arg_names += [var for var in variable_info.index if var not in arg_names]
+
     if is_last_period:
 
         @with_signature(args=arg_names)
